@@ -69,12 +69,155 @@ Definition oracle_spec_subtags (op : bytes) (args : list bytes) (impl : bytes) :
     Some (spec_tok_result variant_tok lower (bs "ERR S") a impl)
   else None.
 
+(* ================================================================== likely subtags / direction *)
+From UL Require Import LangId Likely Inst LikelySpec LayoutSpec TablesData LayoutData.
+From UL Require Tables Layout CldrLikely.
+
+Definition dash : bytes := [45].
+Definition opt_arg (a : bytes) : option bytes := match a with [] => None | _ => Some a end.
+Definition fmt_opt (o : option bytes) : bytes := match o with Some s => s | None => dash end.
+Definition fmt_triple (t : option bytes * option bytes * option bytes) : bytes :=
+  match t with (l, s0, r) => language_text l ++ sp ++ fmt_opt s0 ++ sp ++ fmt_opt r end.
+Definition fmt_otriple (o : option (option bytes * option bytes * option bytes)) : bytes :=
+  match o with None => bs "NONE" | Some t => bs "SOME " ++ fmt_triple t end.
+Definition fmt_res_plain {A} (f : A -> bytes) (r : res A) : bytes :=
+  match r with Ok a => f a | Err e => fmt_err e | Panic _ => bs "PANIC" | OutOfFuel => bs "FUEL" end.
+Definition arg_n (k : nat) (args : list bytes) : bytes := nth k args [].
+Definition fmt_dir (d : dir) : bytes := match d with LTR => bs "LTR" | RTL => bs "RTL" | TTB => bs "TTB" end.
+Definition fmt_bool (b : bool) : bytes := if b then bs "true" else bs "false".
+
+(* decimal text -> nat index *)
+Fixpoint dec_nat (s : bytes) (acc : nat) : nat :=
+  match s with [] => acc | c :: r => dec_nat r (10 * acc + N.to_nat (c - 48)) end.
+
+Definition fmt_oN (o : option N) : bytes := match o with Some x => hex x | None => dash end.
+Definition fmt_tval (v : tval) : bytes :=
+  match v with (a, b, c) => fmt_oN a ++ sp ++ fmt_oN b ++ sp ++ fmt_oN c end.
+Definition fmt_row1 (r : option (N * tval)) : bytes :=
+  match r with Some (k, v) => hex k ++ sp ++ fmt_tval v | None => bs "NOROW" end.
+Definition fmt_row2 (r : option (N * N * tval)) : bytes :=
+  match r with Some (k1, k2, v) => hex k1 ++ sp ++ hex k2 ++ sp ++ fmt_tval v | None => bs "NOROW" end.
+Definition fmt_rowN (r : option N) : bytes := match r with Some k => hex k | None => bs "NOROW" end.
+Definition nat_hex (n : nat) : bytes := hex (N.of_nat n).
+
+Definition model_table_row (name : bytes) (i : nat) : bytes :=
+  if beqb name (bs "LANG_ONLY") then fmt_row1 (nth_error (t_lang_only the_tables) i)
+  else if beqb name (bs "LANG_REGION") then fmt_row2 (nth_error (t_lang_region the_tables) i)
+  else if beqb name (bs "LANG_SCRIPT") then fmt_row2 (nth_error (t_lang_script the_tables) i)
+  else if beqb name (bs "SCRIPT_REGION") then fmt_row2 (nth_error (t_script_region the_tables) i)
+  else if beqb name (bs "SCRIPT_ONLY") then fmt_row1 (nth_error (t_script_only the_tables) i)
+  else if beqb name (bs "REGION_ONLY") then fmt_row1 (nth_error (t_region_only the_tables) i)
+  else if beqb name (bs "SCRIPTS_LTR") then fmt_rowN (nth_error (ly_ltr the_layout) i)
+  else if beqb name (bs "SCRIPTS_RTL") then fmt_rowN (nth_error (ly_rtl the_layout) i)
+  else if beqb name (bs "SCRIPTS_TTB") then fmt_rowN (nth_error (ly_ttb the_layout) i)
+  else if beqb name (bs "LANGS_RTL") then fmt_rowN (nth_error (ly_lang_rtl the_layout) i)
+  else bs "NOTABLE".
+Definition model_table_len (name : bytes) : bytes :=
+  if beqb name (bs "LANG_ONLY") then nat_hex (List.length (t_lang_only the_tables))
+  else if beqb name (bs "LANG_REGION") then nat_hex (List.length (t_lang_region the_tables))
+  else if beqb name (bs "LANG_SCRIPT") then nat_hex (List.length (t_lang_script the_tables))
+  else if beqb name (bs "SCRIPT_REGION") then nat_hex (List.length (t_script_region the_tables))
+  else if beqb name (bs "SCRIPT_ONLY") then nat_hex (List.length (t_script_only the_tables))
+  else if beqb name (bs "REGION_ONLY") then nat_hex (List.length (t_region_only the_tables))
+  else if beqb name (bs "SCRIPTS_LTR") then nat_hex (List.length (ly_ltr the_layout))
+  else if beqb name (bs "SCRIPTS_RTL") then nat_hex (List.length (ly_rtl the_layout))
+  else if beqb name (bs "SCRIPTS_TTB") then nat_hex (List.length (ly_ttb the_layout))
+  else if beqb name (bs "LANGS_RTL") then nat_hex (List.length (ly_lang_rtl the_layout))
+  else bs "NOTABLE".
+
+Definition model_direction (likely : bool) (a : bytes) : bytes :=
+  match langid_from_bytes a with
+  | Ok x => fmt_res_plain fmt_dir (direction likely the_layout the_tables x)
+  | _ => bs "BADARG"
+  end.
+
+Definition fmt_li_change (r : res (bool * langid)) : bytes :=
+  fmt_res_plain (fun p => fmt_bool (fst p) ++ sp ++ li_to_string (snd p)) r.
+
+Definition oracle_model_likely (op : bytes) (args : list bytes) : option bytes :=
+  let l := opt_arg (arg_n 0 args) in
+  let s0 := opt_arg (arg_n 1 args) in
+  let r := opt_arg (arg_n 2 args) in
+  if beqb op (bs "maximize") then Some (fmt_res_plain fmt_otriple (maximize the_tables l s0 r))
+  else if beqb op (bs "minimize") then Some (fmt_res_plain fmt_otriple (minimize the_tables l s0 r))
+  else if beqb op (bs "li_maximize") then
+    Some (match langid_from_bytes (arg1 args) with Ok x => fmt_li_change (li_maximize the_tables x) | _ => bs "BADARG" end)
+  else if beqb op (bs "li_minimize") then
+    Some (match langid_from_bytes (arg1 args) with Ok x => fmt_li_change (li_minimize the_tables x) | _ => bs "BADARG" end)
+  else if beqb op (bs "direction_likely") then Some (model_direction true (arg1 args))
+  else if beqb op (bs "direction_plain") then Some (model_direction false (arg1 args))
+  else if beqb op (bs "table_row") then Some (model_table_row (arg_n 0 args) (dec_nat (arg_n 1 args) 0))
+  else if beqb op (bs "table_len") then Some (model_table_len (arg1 args))
+  else if beqb op (bs "cldr_version") then Some (bs Tables.cldr_version)
+  else None.
+
+(* ---- spec side (independent of tables.rs: dictionary from likelySubtags.json, layout files) ---- *)
+Definition spec_max_ok (l s0 r : option bytes) (impl : bytes) : bool :=
+  beqb impl (fmt_otriple (spec_maximize the_dict l s0 r))
+  || (match spec_maximize the_dict l s0 r with
+      | None => negb (s_is_some l && s_is_some s0 && s_is_some r)
+                && existsb (fun f => beqb impl (fmt_otriple f)) (spec_fallbacks the_dict l s0 r)
+      | Some _ => false end).
+(* a maximize call whose strict answer is "no entry" while a UTS #35 fallback exists *)
+Definition ambiguous (l s0 r : option bytes) : bool :=
+  negb (s_is_some l && s_is_some s0 && s_is_some r)
+  && match spec_maximize the_dict l s0 r with None => negb (match spec_fallbacks the_dict l s0 r with [] => true | _ => false end) | Some _ => false end.
+Definition spec_min_ok (l s0 r : option bytes) (impl : bytes) : bool :=
+  let mx := if s_is_some l && s_is_some s0 && s_is_some r then Some (l, s0, r) else spec_maximize the_dict l s0 r in
+  ambiguous l s0 r
+  || match mx with
+     | Some (ml, ms, mr) => ambiguous ml None None || ambiguous ml None mr || ambiguous ml ms None
+     | None => false end
+  || beqb impl (fmt_otriple (spec_minimize the_dict l s0 r)).
+
+(* CLDR's direction for an identifier that (ignoring variants) is one of the layout locales *)
+Fixpoint cldr_dir_of (x : langid) (es : list (langid * dir)) : option dir :=
+  match es with
+  | [] => None
+  | (y, d) :: r =>
+    if obeqb (li_lang x) (li_lang y) && obeqb (li_script x) (li_script y) && obeqb (li_region x) (li_region y)
+    then Some d else cldr_dir_of x r
+  end.
+Definition spec_dir_ok (likely : bool) (a impl : bytes) : bool :=
+  match langid_from_bytes a with
+  | Ok x =>
+    let by_script := match li_script x with Some sc => spec_script_dir the_lay sc | None => None end in
+    match by_script with
+    | Some d => beqb impl (fmt_dir d)                      (* a listed script decides on its own *)
+    | None =>
+      let never_rtl := match li_lang x with None => true | Some l => negb (spec_lang_rtl the_lay l) end in
+      if never_rtl then beqb impl (bs "LTR")
+      else
+        match cldr_dir_of x the_lay with
+        | Some d =>
+          if likely then beqb impl (fmt_dir d)
+          else beqb impl (fmt_dir d)
+               || (is_none (li_script x) && match li_lang x with Some l => spec_lang_multi the_lay l | None => false end)
+        | None => true                                     (* the property does not fix this answer *)
+        end
+    end
+  | _ => true
+  end.
+
+Definition oracle_spec_likely (op : bytes) (args : list bytes) (impl : bytes) : option bool :=
+  let l := opt_arg (arg_n 0 args) in
+  let s0 := opt_arg (arg_n 1 args) in
+  let r := opt_arg (arg_n 2 args) in
+  if beqb op (bs "maximize") then Some (spec_max_ok l s0 r impl)
+  else if beqb op (bs "minimize") then Some (spec_min_ok l s0 r impl)
+  else if beqb op (bs "direction_likely") then Some (spec_dir_ok true (arg1 args) impl)
+  else if beqb op (bs "direction_plain") then Some (spec_dir_ok false (arg1 args) impl)
+  else if beqb op (bs "cldr_version") then Some (beqb impl (bs CldrLikely.cldr_json_version))
+  else None.
+
 (* ------------------------------------------------------------------ top level *)
 Definition oracle_model (op : bytes) (args : list bytes) : bytes :=
   match oracle_model_subtags op args with Some r => r | None =>
-  bs "UNKNOWN-OP" end.
+  match oracle_model_likely op args with Some r => r | None =>
+  bs "UNKNOWN-OP" end end.
 
 (* None = no specification attached to this operation (only the model is compared) *)
 Definition oracle_spec (op : bytes) (args : list bytes) (impl : bytes) : option bool :=
   match oracle_spec_subtags op args impl with Some r => Some r | None =>
-  None end.
+  match oracle_spec_likely op args impl with Some r => Some r | None =>
+  None end end.
